@@ -70,7 +70,18 @@ func (codec *wsCodec) ReadMessage() (*jsonrpc2.Message, error) {
 	if err != nil {
 		return nil, err
 	}
-	return codec.inner.ReadMessage()
+	msg, err := codec.inner.ReadMessage()
+	if err != nil {
+		return msg, err
+	}
+	// A websocket message can span several frames: a sender whose write
+	// buffer is smaller than the message ends it with a further (possibly
+	// empty) frame. Skip what is left of this message, so that the next read
+	// starts at the next message.
+	if err := codec.r.Discard(); err != nil {
+		return nil, err
+	}
+	return msg, nil
 }
 
 func (codec *wsCodec) WriteMessage(msg *jsonrpc2.Message) error {
